@@ -7,9 +7,9 @@ CONSTANTS ProfSets,     \* the profile sets a service may carry
           UsePatterns   \* resource-use patterns per service (indices into Patterns)
 
 Patterns == << [net |-> {}, vol |-> {}, sec |-> {}, cfg |-> {}],
-               [net |-> {"n1"}, vol |-> {"v1"}, sec |-> {}, cfg |-> {}],
+               [net |-> {"n1"}, vol |-> {"v1", "v2"}, sec |-> {}, cfg |-> {}],          \* v2 is used but not declared
                [net |-> {"n1", "n2"}, vol |-> {}, sec |-> {"x1"}, cfg |-> {"c1"}],
-               [net |-> {}, vol |-> {"v2"}, sec |-> {"x2"}, cfg |-> {}] >>
+               [net |-> {}, vol |-> {}, sec |-> {"x2"}, cfg |-> {}] >>                   \* x2 is a build secret: the service's only reference
 Declared == [net |-> {"n1", "n2", "n9"}, vol |-> {"v1", "v9"}, sec |-> {"x1", "x2", "x9"}, cfg |-> {"c1", "c9"}]
 
 Pairs == {<<s, d>> \in Svc \X Svc : d < s}
